@@ -598,9 +598,101 @@ def rule_every_tid_listed(ctx, R="C04/every-tid-listed"):
                   detail={"path": w})
 
 
+# Linux ptrace ABI (include/uapi/linux/ptrace.h, elf.h): written independently of the repository
+PTRACE_ABI = {
+    # getter: (helper, request, note type discriminant or None, result struct)
+    "getregset": ("ptrace_get_data_via_io", 0x4204, ("NT_PRSTATUS", 1), "libc::user_regs_struct"),
+    "getregs": ("ptrace_get_data", 12, None, "libc::user_regs_struct"),
+    "getfpregset": ("ptrace_get_data_via_io", 0x4204, ("NT_PRFPREGSET", 2), "libc::user_fpregs_struct"),
+    "getfpregs": ("ptrace_get_data", 14, None, "libc::user_fpregs_struct"),
+}
+PTRACE_PEEKUSER = 3
+
+
+def rule_ptrace_requests(ctx, R="C04/ptrace-requests"):
+    """`equal to the registers the thread had` starts with asking the kernel for the right thing: each getter issues the request
+    number and note type of the Linux ptrace ABI for the struct it returns, for the tid it was given; the shared helpers hand the
+    kernel a buffer of exactly that struct (iovec length = size_of::<T>()) and look at the result before assuming it was filled."""
+    prog = ctx.prog
+    X = "linux::thread_info::x86::ThreadInfoX86::"
+    note_discr = {}
+    for name, a in prog.adts.items():
+        if name.endswith("thread_info::NT_Elf"):
+            note_discr = {v["name"]: v.get("discr") for v in a.get("variants", [])}
+    for g, (helper, req, note, ty) in sorted(PTRACE_ABI.items()):
+        b = ctx.body(R, X + g)
+        if b is None:
+            continue
+        o = Origin(b)
+        hs = [(bi, t) for bi, t in b.calls(lambda c: (c.short or "").split("::")[-1] in ("ptrace_get_data", "ptrace_get_data_via_io"))]
+        if len(hs) != 1:
+            ctx.violated(R, (g, "anchor"), b.where(0), "anchor lost: %s does not make exactly one request through the shared helpers" % g)
+            continue
+        bi, t = hs[0]
+        cv = CalleeView(t["callee"])
+        a = o.call_args(bi)
+        rq = core(a[0])
+        ctx.check((cv.short or "").split("::")[-1] == helper, R, (g, "helper"), b.where(bi), "%s goes through %s" % (g, helper), "%s goes through %s (the ABI wants %s)" % (g, (cv.short or "").split("::")[-1], helper))
+        ctx.check(is_const(rq) and rq[1] == req, R, (g, "request"), b.where(bi), "%s issues request %#x" % (g, req), "%s issues request %s, the ABI number is %#x" % (g, show(rq), req))
+        fl = strip(a[1])
+        if note is None:
+            okn = fl[0] == "agg" and fl[2] == "None"
+        else:
+            okn = fl[0] == "agg" and fl[2] == "Some" and strip(dict(fl[3])["0"])[0] == "agg" and strip(dict(fl[3])["0"])[2] == note[0] and note_discr.get(note[0]) == note[1]
+        ctx.check(okn, R, (g, "note-type"), b.where(bi), "%s selects %s" % (g, "%s = %d" % note if note else "no register set"), "%s selects %s (the ABI wants %s; enum value %s)" % (g, show(fl)[:60], note, note_discr.get(note[0]) if note else None))
+        pid = strip(a[2])
+        ctx.check(pid[0] == "call" and pid[1].endswith("Pid::from_raw") and pid[2][0] == ("param", 1), R, (g, "tid"), b.where(bi), "%s asks about the tid it was given" % g, "%s asks about %s" % (g, show(pid)[:60]))
+        rty = b.locals[0]["ty"]
+        ctx.check(rty.startswith("std::result::Result<" + ty + ","), R, (g, "struct"), b.where(0), "%s returns %s" % (g, ty.split("::")[-1]), "%s returns %s, the ABI struct for this request is %s" % (g, rty[:60], ty))
+    pk = ctx.body(R, X + "peek_user")
+    if pk is not None:
+        o = Origin(pk)
+        for bi, t in pk.calls(lambda c: (c.short or "").endswith("ptrace_peek")):
+            a = o.call_args(bi)
+            ctx.check(is_const(core(a[0])) and core(a[0])[1] == PTRACE_PEEKUSER and strip(a[1])[0] == "call" and strip(a[1])[2][0] == ("param", 1) and a[2] == ("param", 2), R, ("peek_user", "request"), pk.where(bi),
+                      "peek_user issues PTRACE_PEEKUSER (3) for its tid at its address", "peek_user issues %s(%s, %s)" % (show(a[0]), show(a[1])[:40], show(a[2])[:40]))
+    n = 0
+    for h in ("ptrace_get_data", "ptrace_get_data_via_io"):
+        b = ctx.body(R, "linux::thread_info::CommonThreadInfo::" + h)
+        if b is None:
+            continue
+        o = Origin(b)
+        pc = [(bi, t) for bi, t in b.calls(lambda c: c.short == "libc::ptrace")]
+        if len(pc) != 1:
+            ctx.violated(R, (h, "anchor"), b.where(0), "anchor lost: %s does not make exactly one libc::ptrace call" % h)
+            continue
+        n += 1
+        bi, t = pc[0]
+        a = o.call_args(bi)
+        buf = [x for x, t2 in b.calls(lambda c: (c.short or "").endswith("MaybeUninit::uninit"))]
+        okargs = a[0] == ("param", 1) and root(strip(a[1])) == ("param", 3) and strip(a[2])[0] == "call" and strip(a[2])[1].endswith("unwrap_or") and strip(a[2])[2][0] == ("param", 2)
+        ctx.check(okargs, R, (h, "args"), b.where(bi), "ptrace(request, pid, note type or 0, ..) with the caller's request, pid and note type", "ptrace called with (%s, %s, %s)" % tuple(show(x)[:40] for x in a[:3]))
+        d = strip(a[3])
+        if h == "ptrace_get_data":
+            okd = d[0] == "call" and d[1].endswith("as_mut_ptr") and strip(d[2][0])[0] == "call" and strip(d[2][0])[1].endswith("MaybeUninit::uninit")
+        else:
+            f = dict(d[3]) if d[0] == "agg" else {}
+            base, ln = strip(f.get("iov_base", ("?",))), strip(f.get("iov_len", ("?",)))
+            inst = ""
+            if ln[0] == "call" and len(ln) > 3:
+                inst = (b.term(ln[3][1]).get("callee") or {}).get("inst") or ""
+            okd = d[0] == "agg" and any(q[0] == "call" and q[1].endswith("MaybeUninit::uninit") for q in walk(base)) and ln[0] == "call" and ln[1].endswith("mem::size_of") and inst.endswith("size_of::<T>")
+        ctx.check(okd, R, (h, "buffer"), b.where(bi), "the kernel is handed the uninitialised T itself%s" % (" with iov_len = size_of::<T>()" if h.endswith("io") else ""), "the data argument is %s" % show(d)[:120])
+        # assume_init only after the result was checked
+        ai = [x for x, t2 in b.calls(lambda c: (c.short or "").endswith("MaybeUninit::assume_init"))]
+        rs = [x for x, t2 in b.calls(lambda c: (c.short or "").endswith("Errno>::result") or (c.short or "").endswith("Errno::result"))]
+        okr = bool(ai) and bool(rs) and all(b.dominates(rs[0], x) for x in ai) and nosite(strip(o.call_args(rs[0])[0])) == nosite(strip(o.call_expr(bi)))
+        if okr:
+            dnf = conditions(b, ai[0], origin=o, relevant=lambda q: q[0] == "discr")
+            okr = bool(dnf) and all(any(v_ == 0 for (_, v_) in c) for c in dnf)
+        ctx.check(okr, R, (h, "checked-before-use"), b.where(ai[0]) if ai else b.where(bi), "the buffer is taken as filled only after Errno::result(ptrace(..)) was Ok", "the buffer can be assumed initialised although the request failed")
+    ctx.floor(R, "shared ptrace data helpers", n, 2)
+
+
 def run(ctx):
     rule_reg_map(ctx)
     rule_regs_source(ctx)
+    rule_ptrace_requests(ctx)
     rule_one_per_thread(ctx)
     rule_window(ctx)
     rule_skip_only_null_sp(ctx)
